@@ -140,8 +140,13 @@ def run_case(env: _Env, c: dict) -> dict:
         d1 = wire.build(id_=0, flags=0x0200, questions=qs[:first], answers=[] if auth else ans)
         d2 = wire.build(id_=0, flags=0, questions=qs[first:], answers=ans if auth else [], authorities=auth)
         msgs = [DNSIncoming(d1, now=NOW), DNSIncoming(d2, now=NOW)]
-    res = env.qh.async_response(msgs, bool(c['ucastSrc']))
     out: Dict[str, Any] = {'u': [], 'now': [], 'agg': [], 'last': [], 'adds': {r: [] for r in ('ptr', 'srv', 'txt', 'a', 'nsec', 'enum')}}
+    try:
+        res = env.qh.async_response(msgs, bool(c['ucastSrc']))
+    except Exception as ex:  # noqa: BLE001
+        # the handler raised: nothing is routed (every record it owed is missing), and the exception is part of the report
+        res = None
+        out['exc'] = '%s: %s' % (type(ex).__name__, str(ex)[:80])
     if res is not None:
         for key, d in (('u', res.ucast), ('now', res.mcast_now), ('agg', res.mcast_aggregate), ('last', res.mcast_aggregate_last_second)):
             for rec, adds in d.items():
@@ -191,7 +196,9 @@ def run(ctx: Ctx, own: str, only: Any = None) -> None:
             c = by_id[cid]
             what = '%s: QueryHandler.async_response on %s (legacy source: %s, probe: %s, known: %s, last multicast: %s) returned %s' % (
                 clause, c['q'], c['ucastSrc'], c['probe'], c['known'], c['rec'], {k: c['out'][k] for k in ('u', 'now', 'agg', 'last')})
-            ctx.report('%s/route-model-case' % clause, what, {'route_case': {k: c[k] for k in ('q', 'ucastSrc', 'probe', 'known', 'rec')}})
+            if c['out'].get('exc'):
+                what += ' -- it raised %s' % c['out']['exc']
+            ctx.report('%s/route-model-case' % clause, what, {'route_case': {k: c[k] for k in ('q', 'ucastSrc', 'probe', 'known', 'rec', 'first')}})
     if judged != len(real):
         raise Machinery('Trace_Route judged %d of %d cases' % (judged, len(real)))
     if drift:
